@@ -310,7 +310,26 @@ Proof.
 Qed.
 
 
-(* body bytes that complete the body: payload eof, callbacks fire *)
+(* a change of fields the invariant does not read (ghost progress, dirtiness, flags of the handler) *)
+Lemma tags_conn_irrelevant s c cn' :
+  Tags s ->
+  c_phase cn' = c_phase (s_conn s c) -> c_buf cn' = c_buf (s_conn s c) -> c_htail cn' = c_htail (s_conn s c) ->
+  c_pst cn' = c_pst (s_conn s c) -> c_pay cn' = c_pay (s_conn s c) -> c_conn cn' = c_conn (s_conn s c) ->
+  c_pupg cn' = c_pupg (s_conn s c) ->
+  Tags (set_conn s c cn').
+Proof.
+  intros [K G L] H1 H2 H3 H4 H5 H6 H7. split.
+  - apply core_set_conn; [exact K|]. apply conntags_fields; try assumption; [apply (tg_conn s K)|].
+    intros Hc. rewrite H6. apply (ct_closed s c (tg_conn s K c)). congruence.
+  - intros g Hg. cbn in Hg. specialize (G g Hg). destruct (N.eq_dec (g_c g) c) as [E|Hne].
+    + destruct G as [G1 G2 G3 G4 G5 G6 G7 G8 G9 G10 G11 G12 G13].
+      split; cbn; rewrite E in *; rewrite ?upd_same; rewrite ?H1, ?H4, ?H5, ?H7; assumption.
+    + eapply segtags_frame; [| | |exact G]; try reflexivity. cbn. now apply upd_other.
+  - intros c' Hn. cbn. destruct (upd_cases (s_conn s) c cn' c') as [[-> E]|[_ E]]; rewrite E; [|now apply L].
+    intros pid rem Hp Hcl. rewrite H4 in Hp. rewrite H5. apply (L c Hn pid rem Hp). congruence.
+Qed.
+
+(* body bytes that complete the body: payload eof, callbacks fire; excess bytes reach the line buffer afterwards *)
 Lemma tags_body_done s g0 g e0 pid rem id (b : bool) :
   Struct s -> Tags s -> s_seg s = Some g0 -> g_c g = g_c g0 -> SegTags s g ->
   c_phase (s_conn s (g_c g0)) = PFlight e0 -> c_pst (s_conn s (g_c g0)) = PSBody pid rem ->
@@ -318,9 +337,9 @@ Lemma tags_body_done s g0 g e0 pid rem id (b : bool) :
   let cn := s_conn s (g_c g0) in
   let pl := set_p_items (s_pay s pid) (p_items (s_pay s pid) ++ [(id, g_tag g)]) in
   let s1 := set_payl s pid (set_p_cb (set_p_eof pl true) None) in
-  let s2 := set_conn s1 (g_c g0) (set_c_ptail (set_c_pst cn PSHead) b) in
-  let s3 := if b then surplus_tail s2 cn else s2 in
-  Tags (set_s_seg (match p_cb pl with Some e1 => response_eof cf s3 e1 | None => s3 end) (Some g)).
+  let s2 := set_conn s1 (g_c g0) (set_c_pst cn PSHead) in
+  let s3 := match p_cb pl with Some e1 => response_eof cf s2 e1 | None => s2 end in
+  Tags (set_s_seg (if b then surplus_tail (set_conn s3 (g_c g0) (set_c_ptail (s_conn s3 (g_c g0)) true)) cn else s3) (Some g)).
 Proof.
   intros S T Hs Hc SG Hph Hp Hu cn pl s1 s2 s3. subst cn.
   pose proof SG as [G1 G2 G3 G4 G5 G6 G7 G8 G9 G10 G11 G12 G13]. rewrite Hc in *.
@@ -350,21 +369,21 @@ Proof.
         try solve [intros e He'; injection He' as <-; now apply G1]; try solve [intros _; now exists e0].
       + eapply Forall_impl; [|exact G5]. intros m'. now apply msg_ok_transfer.
       + intros H'. destruct (G10 H') as [H1 _]. congruence. }
+  assert (S2 : Struct s2).
+  { subst s2 s1. apply sf_conn; [now apply sf_payl|reflexivity]. }
   assert (T3 : Tags (set_s_seg s3 (Some g))).
-  { subst s3. destruct b; [now apply tags_surplus_tail|exact T2]. }
-  assert (S3 : Struct s3).
-  { subst s3 s2 s1. destruct b; [apply struct_surplus_tail|]; (apply sf_conn; [now apply sf_payl|reflexivity]). }
-  assert (Hp3 : c_pst (s_conn s3 c) = PSHead).
-  { subst s3. unfold surplus_tail. destruct b; [destruct (prog_done _)|]; cbn; now rewrite upd_same. }
-  cbn [p_cb pl set_p_items]. destruct (p_cb (s_pay s pid)) as [e1|] eqn:Ecb; [|exact T3].
-  destruct (G7 pid rem Hp) as [Hm Hq]; [congruence|].
-  assert (Hr : g_rest g = []).
-  { destruct (g_rest g) eqn:Er; [reflexivity|]. assert (c_pupg (s_conn s c) = true) by (apply G8; discriminate). congruence. }
-  rewrite <- response_eof_set_seg.
-  apply (tags_response_eof_seg (set_s_seg s3 (Some g)) g e1); try assumption; [now apply sf_seg|reflexivity|].
-  cbn [s_conn set_s_seg]. rewrite Hc. exact Hp3.
+  { subst s3. cbn [p_cb pl set_p_items]. destruct (p_cb (s_pay s pid)) as [e1|] eqn:Ecb; [|exact T2].
+    destruct (G7 pid rem Hp) as [Hm Hq]; [congruence|].
+    assert (Hr : g_rest g = []).
+    { destruct (g_rest g) eqn:Er; [reflexivity|]. assert (c_pupg (s_conn s c) = true) by (apply G8; discriminate). congruence. }
+    rewrite <- response_eof_set_seg.
+    apply (tags_response_eof_seg (set_s_seg s2 (Some g)) g e1); try assumption; [now apply sf_seg|reflexivity|].
+    cbn [s_conn set_s_seg]. rewrite Hc. subst s2. cbn. now rewrite upd_same. }
+  destruct b; [|exact T3].
+  apply tags_surplus_tail.
+  exact (tags_conn_irrelevant (set_s_seg s3 (Some g)) c (set_c_ptail (s_conn s3 c) true) T3
+           eq_refl eq_refl eq_refl eq_refl eq_refl eq_refl eq_refl).
 Qed.
-
 
 Lemma tags_proc_tok s g0 g tk tg s1 g1 e0 :
   Struct s -> Tags s -> s_seg s = Some g0 -> g_c g = g_c g0 -> SegTags s g ->
@@ -414,25 +433,6 @@ Proof.
     + inv_some. now apply (tags_body_done s g0 g e0 pid rem id (rem <? n)).
 Qed.
 
-
-(* a change of fields the invariant does not read (ghost progress, dirtiness, flags of the handler) *)
-Lemma tags_conn_irrelevant s c cn' :
-  Tags s ->
-  c_phase cn' = c_phase (s_conn s c) -> c_buf cn' = c_buf (s_conn s c) -> c_htail cn' = c_htail (s_conn s c) ->
-  c_pst cn' = c_pst (s_conn s c) -> c_pay cn' = c_pay (s_conn s c) -> c_conn cn' = c_conn (s_conn s c) ->
-  c_pupg cn' = c_pupg (s_conn s c) ->
-  Tags (set_conn s c cn').
-Proof.
-  intros [K G L] H1 H2 H3 H4 H5 H6 H7. split.
-  - apply core_set_conn; [exact K|]. apply conntags_fields; try assumption; [apply (tg_conn s K)|].
-    intros Hc. rewrite H6. apply (ct_closed s c (tg_conn s K c)). congruence.
-  - intros g Hg. cbn in Hg. specialize (G g Hg). destruct (N.eq_dec (g_c g) c) as [E|Hne].
-    + destruct G as [G1 G2 G3 G4 G5 G6 G7 G8 G9 G10 G11 G12 G13].
-      split; cbn; rewrite E in *; rewrite ?upd_same; rewrite ?H1, ?H4, ?H5, ?H7; assumption.
-    + eapply segtags_frame; [| | |exact G]; try reflexivity. cbn. now apply upd_other.
-  - intros c' Hn. cbn. destruct (upd_cases (s_conn s) c cn' c') as [[-> E]|[_ E]]; rewrite E; [|now apply L].
-    intros pid rem Hp Hcl. rewrite H4 in Hp. rewrite H5. apply (L c Hn pid rem Hp). congruence.
-Qed.
 
 Lemma tags_ghost_tok s c tk e0 :
   Tags s -> c_phase (s_conn s c) = PFlight e0 -> Tags (ghost_tok s c tk).
